@@ -979,6 +979,12 @@ def scenarios(F, out_id):
         yield "%s is %s" % (names[out_id], " and ".join(names[g] for g in grp)), u
 
 
+def whence(detail):
+    if detail.get("sources"):
+        return "the sign comes from %s, which the caller chooses freely" % ", ".join(detail["sources"])
+    return "that sign is attained on this path whatever the operands' signs are"
+
+
 def judge(fn, out_idx, field, want, summaries, canonicalize=False, when_returns_nonzero=False, restrict=None):
     """-> (verdict, detail) for 'at every exit the size of <output>[.field] has a sign inside want'"""
     F = Fn(fn, summaries)
@@ -1065,10 +1071,9 @@ def run(prop="C12", tier="quick"):
             if verdict == "refuted":
                 res["findings"].append(Finding(
                     prop, "R-SIGN", path, detail["line"], fn["name"], "denominator-sign:%s" % detail["bad"].replace(" ", "-"),
-                    "%s can return at line %d with the denominator of %s %s (scenario: %s; the sign comes from %s, which the caller chooses "
-                    "freely): a canonical rational has a positive denominator, and mpq_cmp, mpq_equal, mpq_get_d and the arithmetic "
-                    "functions rely on it" % (fn["name"], detail["line"], ps[0]["name"], detail["bad"], detail["scenario"],
-                                              ", ".join(detail["sources"]) or "a value that is definite on that path")))
+                    "%s can return at line %d with the denominator of %s %s (scenario: %s; %s): a canonical rational has a positive "
+                    "denominator, and mpq_cmp, mpq_equal, mpq_get_d and the arithmetic functions rely on it"
+                    % (fn["name"], detail["line"], ps[0]["name"], detail["bad"], detail["scenario"], whence(detail))))
     want = {"fix_sign_bad_inv": "refuted", "fix_sign_bad_div": "refuted", "fix_sign_good_inv": "proved", "fix_sign_good_div": "proved",
             "fix_sign_good_copytest": "proved", "fix_sign_good_square": "undecided", "fix_sign_bad_inplace": "refuted", "fix_sign_good_inplace": "proved"}
     if any(fxres.get(k) != v for k, v in want.items()):
@@ -1129,8 +1134,8 @@ def run_nonneg(prop, tier="quick"):
         if verdict == "refuted":
             res["findings"].append(Finding(
                 prop, "R-SIGN", path, detail["line"], name, "result-sign:%s:%s" % (oname, detail["bad"].replace(" ", "-")),
-                "%s can return at line %d with %s %s (scenario: %s; the sign comes from %s, which the caller chooses freely), but %s"
-                % (name, detail["line"], oname, detail["bad"], detail["scenario"], ", ".join(detail["sources"]) or "a value that is definite on that path", text)))
+                "%s can return at line %d with %s %s (scenario: %s; %s), but %s"
+                % (name, detail["line"], oname, detail["bad"], detail["scenario"], whence(detail), text)))
     st = res["stats"]
     res["stats"] = dict(st)
     res["obligations"] = st["obligations"]
